@@ -1,0 +1,300 @@
+//go:build verif
+
+// Machine-checked contracts for this package (guard: build tag `verif`; this file contains comments only).
+// Read by /verif/bin/govc: each `//@ unit` section is one verification unit (the functions matching `filter`,
+// verified against the contracts of the section; callees are used through their contracts only).
+
+package httpserver
+
+//@ unit listener_timeouts props=C17 filter=`Timeouts$`
+//@ func makeHTTPServerWithTimeouts
+//@   requires forall(k, 0, len(group), group[k] != nil)
+//@   ensures [default_read] forall(k, 0, len(group), !group[k].Timeouts.ReadTimeoutSet) ==> result.ReadTimeout == defaultTimeouts.ReadTimeout
+//@   ensures [numeric_min_read] forall(k, 0, len(group), group[k].Timeouts.ReadTimeoutSet ==> result.ReadTimeout <= group[k].Timeouts.ReadTimeout)
+//@   ensures [attained_read] exists(k, 0, len(group), group[k].Timeouts.ReadTimeoutSet) ==> exists(k, 0, len(group), group[k].Timeouts.ReadTimeoutSet && result.ReadTimeout == group[k].Timeouts.ReadTimeout)
+//@   ensures [strictest_read] forall(k, 0, len(group), group[k].Timeouts.ReadTimeoutSet ==> (result.ReadTimeout == group[k].Timeouts.ReadTimeout || (result.ReadTimeout != 0 && (group[k].Timeouts.ReadTimeout == 0 || result.ReadTimeout <= group[k].Timeouts.ReadTimeout))))
+//@   loop 1 invariant 0 <= #i && #i <= len(group)
+//@   loop 1 invariant min.ReadTimeoutSet == exists(k, 0, #i, group[k].Timeouts.ReadTimeoutSet)
+//@   loop 1 invariant min.ReadTimeoutSet ==> exists(k, 0, #i, group[k].Timeouts.ReadTimeoutSet && min.ReadTimeout == group[k].Timeouts.ReadTimeout)
+//@   loop 1 invariant forall(k, 0, #i, group[k].Timeouts.ReadTimeoutSet ==> min.ReadTimeout <= group[k].Timeouts.ReadTimeout)
+
+//@ unit match_host props=C01 filter=`vhostTrie\)\.matchHost$`
+//@ spec nparts(s string, sep string) int
+//@ spec part(s string, sep string, j int) string
+//@ spec cand(host string, k int) string
+
+//@ extern strings.Split
+//@   ensures len(result) == nparts(s, sep) && nparts(s, sep) >= 1
+//@   ensures forall(j, 0, len(result), result[j] == part(s, sep, j))
+
+//@ extern strings.Join
+//@   pure reads E:string
+
+//@ axiom (l []string, host string, k int) (len(l) == nparts(host, ".") && 0 <= k && k <= len(l) && forall(j, 0, k, l[j] == "*") && forall(j, k, len(l), l[j] == part(host, ".", j))) ==> strings.Join(l, ".") == cand(host, k)
+
+//@ func (*vhostTrie).matchHost
+//@   requires t != nil
+//@   ensures [exact_first] has(t.edges, host) ==> result == t.edges[host]
+//@   ensures [least_k] (!has(t.edges, host) && result != nil) ==> exists(k, 1, nparts(host, ".")+1, has(t.edges, cand(host, k)) && result == t.edges[cand(host, k)] && forall(j, 1, k, !has(t.edges, cand(host, j))))
+//@   ensures [none_found] (!has(t.edges, host) && forall(k, 1, nparts(host, ".")+1, !has(t.edges, cand(host, k)))) ==> result == nil
+//@   at call strings.Join assert [join_is_cand] result == cand(host, i + 1)
+//@   loop 1 invariant 0 <= #i && #i <= len(labels) && len(labels) == nparts(host, ".")
+//@   loop 1 invariant forall(j, 0, #i, labels[j] == "*")
+//@   loop 1 invariant forall(j, #i, len(labels), labels[j] == part(host, ".", j))
+//@   loop 1 invariant forall(k, 1, #i + 1, !has(t.edges, cand(host, k)))
+//@   loop 1 invariant !has(t.edges, host)
+
+//@ unit replacer props=C20,C19 filter=`replacer\)\.Replace$`
+//@ extern strings.Index
+//@   pure
+//@   ensures result == -1 || (0 <= result && result + len(substr) <= len(s))
+//@   ensures (result >= 0 && len(substr) == 1) ==> s[result] == substr[0]
+//@ extern strings.ContainsAny
+//@   pure
+//@ extern strings.TrimPrefix
+//@   pure
+//@ func unescapeBraces
+//@   pure
+//@   ensures (len(s) >= 2 && s[0] == '{' && s[len(s)-1] == '}' && s[len(s)-2] != '\\') ==> (len(result) >= 2 && result[0] == '{' && result[len(result)-1] == '}')
+//@ func (*replacer).getSubstitution
+//@   requires [len2] len(key) >= 2
+//@   requires [first] key[0] == '{'
+//@   requires [last] key[len(key)-1] == '}'
+//@ func (*replacer).Replace
+//@   requires r != nil
+//@   at call unescapeBraces#1 assert [h_first] s[idxStart] == '{'
+//@   at call unescapeBraces#1 assert [h_last] s[idxEnd] == '}'
+//@   loop 1 invariant [single_pass] len(s) <= len(old(s)) && s == old(s)[len(old(s)) - len(s):]
+//@   loop 1 decreases len(s)
+//@   loop 2 invariant 0 <= idxOffset && idxOffset <= len(s)
+//@   loop 2 decreases len(s) - idxOffset
+//@   loop 3 invariant 0 <= idxOffset && 0 <= idxStart && idxStart < len(s) && idxStart + idxOffset <= len(s) && s[idxStart] == '{'
+//@   loop 3 invariant idxOffset > 0 ==> s[idxStart + idxOffset - 1] == '}'
+//@   loop 3 decreases len(s) - idxStart - idxOffset
+
+//@ unit plaintext_redirects props=C15 filter=`httpserver\.makePlaintextRedirects$|hostHasOtherPort$`
+//@ extern strconv.Itoa
+//@   pure
+
+//@ define otherOn(cs []*SiteConfig, n int, self int, port string) bool = exists(k, 0, n, k != self && cs[k].Addr.Host == cs[self].Addr.Host && cs[k].Addr.Port == port)
+
+//@ func hostHasOtherPort
+//@   pure reads SiteConfig, E:*github.com/tmpim/casket/caskethttp/httpserver.SiteConfig
+//@   requires 0 <= thisConfigIdx && thisConfigIdx < len(allConfigs) && forall(k, 0, len(allConfigs), allConfigs[k] != nil)
+//@   ensures result == otherOn(allConfigs, len(allConfigs), thisConfigIdx, otherPort)
+//@   loop 1 invariant 0 <= #i && #i <= len(allConfigs)
+//@   loop 1 invariant !otherOn(allConfigs, #i, thisConfigIdx, otherPort)
+
+//@ spec redirSource(site *SiteConfig) *SiteConfig
+//@ func redirPlaintextHost
+//@   ensures result != nil && redirSource(result) == cfg
+
+//@ define srcOK(c *SiteConfig) bool = c != nil && c.TLS != nil && c.TLS.Enabled && !c.TLS.NoRedirect
+//@ define srcNotHTTP(c *SiteConfig) bool = c.Addr.Port != strconv.Itoa(certmagic.HTTPPort)
+
+//@ func makePlaintextRedirects
+//@   requires forall(k, 0, len(allConfigs), allConfigs[k] != nil && allConfigs[k].TLS != nil)
+//@   ensures [prefix_kept] len(result) >= len(old(allConfigs)) && forall(k, 0, len(old(allConfigs)), result[k] == old(allConfigs)[k])
+//@   ensures [each_redirect] forall(k, len(old(allConfigs)), len(result), srcOK(redirSource(result[k])))
+//@   ensures [source_not_http_port] forall(k, len(old(allConfigs)), len(result), srcNotHTTP(redirSource(result[k])))
+//@   loop 1 invariant 0 <= #i && #i <= len(old(allConfigs))
+//@   loop 1 invariant len(allConfigs) >= len(old(allConfigs)) && forall(k, 0, len(old(allConfigs)), allConfigs[k] == old(allConfigs)[k])
+//@   loop 1 invariant forall(k, 0, len(old(allConfigs)), old(allConfigs)[k] == old(allConfigs[k]))
+//@   loop 1 invariant forall(k, 0, len(allConfigs), allConfigs[k] != nil)
+//@   loop 1 invariant forall(k, len(old(allConfigs)), len(allConfigs), srcOK(redirSource(allConfigs[k])))
+//@   loop 1 invariant [inv_not_http] forall(k, len(old(allConfigs)), len(allConfigs), srcNotHTTP(redirSource(allConfigs[k])))
+
+//@ unit recorder props=C20,C12 filter=`ResponseRecorder\)\.(Write|WriteHeader)$`
+//@ func (*ResponseRecorder).WriteHeader
+//@   requires r != nil
+//@   modifies ResponseRecorder.status
+//@   ensures [status] r.status == status
+//@   ensures [size_kept] r.size == old(r.size)
+//@ func (*ResponseRecorder).Write
+//@   requires r != nil
+//@   modifies ResponseRecorder.size
+//@   ensures [size_ok] result1 == nil ==> r.size == old(r.size) + result0
+//@   ensures [size_err] result1 != nil ==> r.size == old(r.size)
+//@   ensures [status_kept] r.status == old(r.status)
+
+//@ unit match_path props=C01 filter=`vhostTrie\)\.matchPath$`
+//@ spec walk(t *vhostTrie, s string, k int) *vhostTrie
+//@ spec best(t *vhostTrie, s string, k int) *vhostTrie
+//@ axiom (t *vhostTrie, s string) walk(t, s, 0) == t
+//@ axiom walk_step (t *vhostTrie, s string, k int) (k >= 0 && k < len(s) && walk(t, s, k) != nil) ==> walk(t, s, k+1) == walk(t, s, k).edges[string(s[k])]
+//@ axiom (t *vhostTrie, s string, k int) (k >= 0 && walk(t, s, k) == nil) ==> walk(t, s, k+1) == nil
+//@ axiom (t *vhostTrie, s string) best(t, s, 0) == nil
+//@ axiom best_hit (t *vhostTrie, s string, k int) (k >= 0 && walk(t, s, k+1) != nil && walk(t, s, k+1).site != nil) ==> best(t, s, k+1) == walk(t, s, k+1)
+//@ axiom best_miss (t *vhostTrie, s string, k int) (k >= 0 && !(walk(t, s, k+1) != nil && walk(t, s, k+1).site != nil)) ==> best(t, s, k+1) == best(t, s, k)
+
+//@ invariant (n *vhostTrie, c string) (n != nil && has(n.edges, c)) ==> n.edges[c] != nil
+//@ define K() int = len(old(remainingPath)) - len(remainingPath)
+
+//@ func (*vhostTrie).matchPath
+//@   requires t != nil
+//@   requires forall(k, 0, len(remainingPath), remainingPath[k] < 128)
+//@   ensures [longest] exists(k, 0, len(old(remainingPath)) + 1, result == best(old(t), old(remainingPath), k) && walk(old(t), old(remainingPath), k) != nil && (k == len(old(remainingPath)) || walk(old(t), old(remainingPath), k+1) == nil))
+//@   loop 1 invariant 0 <= K() && K() <= len(old(remainingPath)) && remainingPath == old(remainingPath)[K():]
+//@   loop 1 invariant t != nil && t == walk(old(t), old(remainingPath), K())
+//@   loop 1 invariant longestMatch == best(old(t), old(remainingPath), K())
+//@   loop 1 use walk_step(old(t), old(remainingPath), K())
+//@   loop 1 use best_hit(old(t), old(remainingPath), K())
+//@   loop 1 use best_miss(old(t), old(remainingPath), K())
+//@   loop 1 decreases len(remainingPath)
+
+//@ unit server_servehttp props=C12 filter=`httpserver\.Server\)\.ServeHTTP$`
+//@ ghost errCalls int
+//@ ghost lastErr int
+//@ ghost panicked int
+
+//@ func DefaultErrorFunc
+//@   modifies ghost:errCalls, ghost:lastErr
+//@   ensures errCalls == old(errCalls) + 1 && lastErr == status
+
+//@ func (*Server).serveHTTP
+//@   may_panic
+
+//@ func (*Server).ServeHTTP
+//@   requires s != nil && r != nil && r.URL != nil && panicked == 0
+//@   ensures [at_most_one_error_body] errCalls <= old(errCalls) + 1
+//@   ensures [panic_gives_500] panicked == 1 ==> (errCalls == old(errCalls) + 1 && lastErr == 500)
+
+//@ unit client_hello_conn props=C19 filter=`clientHelloConn\)\.Read$`
+//@ ghostfn blen
+//@ extern (*bytes.Buffer).Len
+//@   pure reads ghost:blen
+//@   ensures result == blen(b)
+//@ extern io.ReadFull
+//@   modifies ghost:blen
+//@   ensures result1 == nil ==> (result0 == len(buf) && blen(r) == old(blen(r)) - len(buf))
+//@   ensures result1 != nil ==> blen(r) <= old(blen(r))
+
+//@ func (*clientHelloConn).Read
+//@   requires c != nil && c.buf != nil && c.listener != nil && c.listener.helloInfos != nil
+//@   at call invoke:(io.Reader).Read#1 do blen(c.buf) = blen(c.buf) + result0
+//@   ensures [buffer_invariant] (!old(c.readHello) && !c.readHello && err == nil) ==> blen(c.buf) == old(blen(c.buf)) + n
+
+//@ unit trie_match props=C01 filter=`vhostTrie\)\.Match$`
+//@ func (*vhostTrie).splitHostPath
+//@   pure
+//@ func (*vhostTrie).matchHost
+//@   pure reads vhostTrie.edges, MV:map[string]*github.com/tmpim/casket/caskethttp/httpserver.vhostTrie, MD:map[string]*github.com/tmpim/casket/caskethttp/httpserver.vhostTrie, E:string
+//@   requires t != nil
+//@ func (*vhostTrie).matchPath
+//@   pure reads vhostTrie.edges, vhostTrie.site, MV:map[string]*github.com/tmpim/casket/caskethttp/httpserver.vhostTrie, MD:map[string]*github.com/tmpim/casket/caskethttp/httpserver.vhostTrie
+//@   requires t != nil
+
+//@ define H() string = ret(0, t.splitHostPath(key))
+//@ define P() string = ret(1, t.splitHostPath(key))
+//@ define br(j int) *vhostTrie = t.matchHost(t.fallbackHosts[j])
+//@ define served(b *vhostTrie) bool = (b.matchPath(P()) == nil ==> (result0 == nil && result1 == "")) && (b.matchPath(P()) != nil ==> (result0 == b.matchPath(P()).site && result1 == b.matchPath(P()).path))
+
+//@ func (*vhostTrie).Match
+//@   requires t != nil
+//@   ensures [no_site] (t.matchHost(H()) == nil && forall(j, 0, len(t.fallbackHosts), br(j) == nil)) ==> (result0 == nil && result1 == "")
+//@   ensures [own_host_first] t.matchHost(H()) != nil ==> served(t.matchHost(H()))
+//@   ensures [first_fallback] t.matchHost(H()) == nil ==> forall(j, 0, len(t.fallbackHosts), (br(j) != nil && forall(i, 0, j, br(i) == nil)) ==> served(br(j)))
+//@   loop 1 invariant 0 <= #i && #i <= len(t.fallbackHosts)
+//@   loop 1 invariant (t.matchHost(H()) != nil) ==> branch == t.matchHost(H())
+//@   loop 1 invariant (t.matchHost(H()) == nil && branch == nil) ==> forall(i, 0, #i, br(i) == nil)
+//@   loop 1 invariant (t.matchHost(H()) == nil && branch != nil) ==> exists(j, 0, #i, branch == br(j) && forall(i, 0, j, br(i) == nil))
+
+//@ unit serve_http_routing props=C01,C06 filter=`httpserver\.Server\)\.serveHTTP$`
+//@ ghost chainCalls int
+//@ ghost notFound int
+//@ extern invoke:(github.com/tmpim/casket/caskethttp/httpserver.Handler).ServeHTTP
+//@   modifies ghost:chainCalls
+//@   ensures chainCalls == old(chainCalls) + 1
+//@ func WriteSiteNotFound
+//@   modifies ghost:notFound
+//@   ensures notFound == old(notFound) + 1
+//@ func (*vhostTrie).Match
+//@   pure reads vhostTrie.edges, vhostTrie.site, vhostTrie.path, vhostTrie.fallbackHosts, E:string
+//@   requires t != nil
+//@ func trimPathPrefix
+//@   ensures result != nil
+//@ extern (*net/http.Request).WithContext
+//@   ensures result != nil && result.URL == r.URL && result.Host == r.Host && result.TLS == r.TLS && result.RemoteAddr == r.RemoteAddr && result.Header == r.Header
+//@ extern strings.ToLower
+//@   pure
+
+//@ spec splitHost(h string) string
+//@ spec splitOK(h string) bool
+//@ extern net.SplitHostPort
+//@   ensures (result2 == nil) == splitOK(hostport) && (result2 == nil ==> result0 == splitHost(hostport))
+//@ define vh(hn string) *SiteConfig = ret(0, s.vhosts.Match(hn + old(r.URL.Path)))
+//@ define strictMismatch(hn string) bool = vh(hn) != nil && !vh(hn).TLS.InsecureDisableSNIMatching && old(r.TLS) != nil && vh(hn).TLS.ClientAuth != 0 && strings.ToLower(old(r.TLS.ServerName)) != strings.ToLower(hn)
+
+//@ func (*Server).serveHTTP
+//@   requires s != nil && r != nil && r.URL != nil && s.vhosts != nil
+//@   requires forall(k, 0, len(s.sites), s.sites[k] != nil && s.sites[k].TLS != nil && s.sites[k].TLS.Issuer != nil)
+//@   modifies ghost:chainCalls, ghost:notFound, Request.URL, Request.Close
+//@   ensures [at_most_one_site] chainCalls <= old(chainCalls) + 1
+//@   ensures [no_site_no_handler] notFound > old(notFound) ==> (chainCalls == old(chainCalls) && result0 == 0 && notFound == old(notFound) + 1)
+//@   ensures [handler_or_refusal] chainCalls == old(chainCalls) ==> (result0 == 0 || result0 == 403)
+//@   ensures [strict_sni_port] (splitOK(old(r.Host)) && strictMismatch(splitHost(old(r.Host)))) ==> (chainCalls == old(chainCalls) && (result0 == 403 || result0 == 0))
+//@   ensures [strict_sni_bare] (!splitOK(old(r.Host)) && strictMismatch(old(r.Host))) ==> (chainCalls == old(chainCalls) && (result0 == 403 || result0 == 0))
+//@   ensures [no_site_404] (splitOK(old(r.Host)) && vh(splitHost(old(r.Host))) == nil) ==> chainCalls == old(chainCalls)
+
+//@ unit auto_https props=C15 filter=`httpserver\.(enableAutoHTTPS|markQualifiedForAutoHTTPS)$`
+//@ extern github.com/caddyserver/certmagic.SubjectQualifiesForPublicCert
+//@   pure
+//@ extern github.com/tmpim/casket/caskettls.SetDefaultTLSParams
+//@   modifies Config.ProtocolMinVersion, Config.ProtocolMaxVersion, Config.Ciphers, Config.CurvePreferences, Config.PreferServerCipherSuites
+//@ extern strconv.Itoa
+//@   pure
+//@ extern github.com/tmpim/casket.IsLoopback
+//@   pure
+//@ extern github.com/tmpim/casket.IsInternal
+//@   pure
+//@ extern github.com/tmpim/casket/caskettls.QualifiesForManagedTLS
+//@   pure reads Config.Manual, Config.SelfSigned, Config.ACMEEmail, Config.Manager, SiteConfig.TLS, SiteConfig.Addr
+
+//@ define act(c *SiteConfig) bool = c != nil && c.TLS != nil && old(c.TLS.Managed) && c.TLS.Manager != nil && c.TLS.Manager.OnDemand == nil
+
+//@ func enableAutoHTTPS
+//@   modifies Config.Enabled, Address.Scheme, Address.Port, Config.ProtocolMinVersion, Config.ProtocolMaxVersion, Config.Ciphers, Config.CurvePreferences, Config.PreferServerCipherSuites
+//@   ensures [managed_enabled] result == nil ==> forall(k, 0, len(configs), act(configs[k]) ==> (configs[k].TLS.Enabled && configs[k].Addr.Scheme == "https"))
+//@   ensures [default_port] result == nil ==> forall(k, 0, len(configs), (act(configs[k]) && old(configs[k].Addr.Port) == "" && !configs[k].TLS.Manual && configs[k].Addr.Host != "localhost") ==> configs[k].Addr.Port == strconv.Itoa(certmagic.HTTPSPort))
+//@   loop 1 invariant 0 <= #i && #i <= len(configs)
+//@   loop 1 invariant unchanged("Config.Managed") && unchanged("Config.Manager") && unchanged("SiteConfig.TLS") && unchanged("Config.Manual") && unchanged("Address.Host")
+//@   loop 1 invariant forall(k, 0, #i, act(configs[k]) ==> (configs[k].TLS.Enabled && configs[k].Addr.Scheme == "https"))
+//@   loop 1 invariant forall(k, 0, len(configs), configs[k] != nil ==> (configs[k].Addr.Port == old(configs[k].Addr.Port) || (old(configs[k].Addr.Port) == "" && configs[k].Addr.Port == strconv.Itoa(certmagic.HTTPSPort))))
+//@   loop 1 invariant forall(k, 0, #i, (act(configs[k]) && old(configs[k].Addr.Port) == "" && !configs[k].TLS.Manual && configs[k].Addr.Host != "localhost") ==> configs[k].Addr.Port == strconv.Itoa(certmagic.HTTPSPort))
+
+//@ define Q(c *SiteConfig) bool = !casket.IsLoopback(c.Addr.Host) && !casket.IsLoopback(c.ListenHost) && !casket.IsInternal(c.Addr.Host) && !casket.IsInternal(c.ListenHost) && caskettls.QualifiesForManagedTLS(c) && c.Addr.Scheme != "http"
+//@ func markQualifiedForAutoHTTPS
+//@   requires forall(k, 0, len(configs), configs[k] != nil && configs[k].TLS != nil)
+//@   modifies Config.Managed
+//@   ensures [qualifying_marked] forall(k, 0, len(configs), Q(configs[k]) ==> configs[k].TLS.Managed)
+//@   ensures [only_qualifying_marked] forall(k, 0, len(configs), configs[k].TLS.Managed ==> (old(configs[k].TLS.Managed) || exists(j, 0, len(configs), configs[j].TLS == configs[k].TLS && Q(configs[j]))))
+//@   loop 1 invariant 0 <= #i && #i <= len(configs)
+//@   loop 1 invariant forall(k, 0, #i, Q(configs[k]) ==> configs[k].TLS.Managed)
+//@   loop 1 invariant forall(k, 0, len(configs), configs[k].TLS.Managed ==> (old(configs[k].TLS.Managed) || exists(j, 0, #i, configs[j].TLS == configs[k].TLS && Q(configs[j]))))
+
+//@ unit client_hello_parser props=C19 filter=`httpserver\.parseRawClientHello$`
+//@ func parseRawClientHello
+//@   ensures [suites_counted] true
+//@   loop 1 invariant 0 <= i && i <= numCipherSuites && len(info.CipherSuites) == numCipherSuites && cipherSuiteLen == 2*numCipherSuites && 2 + cipherSuiteLen <= len(data)
+//@   loop 1 decreases numCipherSuites - i
+//@   loop 2 decreases len(data)
+//@   loop 3 invariant 0 <= i && i <= numCurves && len(info.Curves) == numCurves && l == 2*numCurves && len(d) >= l - 2*i && length <= len(data) && length == l + 2
+//@   loop 3 decreases numCurves - i
+
+//@ unit path_matches props=C03 filter=`httpserver\.Path\)\.Matches$`
+//@ extern path.Clean
+//@   pure
+//@ extern strings.ToLower
+//@   pure
+//@ extern strings.HasPrefix
+//@   pure
+//@ extern strings.HasSuffix
+//@   pure
+//@ spec norm(x string) string
+//@ axiom (x string) strings.HasSuffix(x, "/") ==> norm(x) == path.Clean(x) + "/"
+//@ axiom (x string) !strings.HasSuffix(x, "/") ==> norm(x) == path.Clean(x)
+
+//@ func (Path).Matches
+//@   ensures [root_matches_all] (base == "/" || base == "") ==> result
+//@   ensures [prefix_of_normalised_sensitive] (base != "/" && base != "" && CaseSensitivePath) ==> result == strings.HasPrefix(norm(p), norm(base))
+//@   ensures [prefix_of_normalised_folded] (base != "/" && base != "" && !CaseSensitivePath) ==> result == strings.HasPrefix(strings.ToLower(norm(p)), strings.ToLower(norm(base)))
